@@ -395,10 +395,9 @@ impl<'a> ItemUseIter<'a> {
     }
 
     fn base_name(&self) -> String {
-        self.base_name
-            .as_ref()
-            .cloned()
-            .expect("base name not in use statement?")
+        // `use foo;` / `use foo as bar;` / `use {a::B, c};` have no leading path segment; such an
+        // import has no crate to attribute the name to (an empty crate name is never accepted).
+        self.base_name.clone().unwrap_or_default()
     }
 }
 
